@@ -191,6 +191,8 @@ struct BinCase {
     /// selected names per category as written in the toml (None = no toml)
     selected: Vec<(String, String)>,
     unknown: Option<(String, String)>,
+    /// the configuration file names a directory that does not exist
+    toml_path_missing: bool,
 }
 
 fn toml_text(path: &str, sel: &[(String, String)], unknown: &Option<(String, String)>) -> String {
@@ -209,7 +211,7 @@ fn toml_text(path: &str, sel: &[(String, String)], unknown: &Option<(String, Str
 fn binary_case(env: &Env, tape: &[u8], st: &mut Stats) -> Vec<Violation> {
     let mut t = Tape::new(tape);
     let docs = documented(env);
-    let mut c = BinCase { path_style: t.below(3) as u8, order_seed: t.u64(), use_path: t.chance(128), use_toml: t.chance(170), have_contracts: t.chance(150), selected: vec![], unknown: None };
+    let mut c = BinCase { path_style: t.below(3) as u8, order_seed: t.u64(), use_path: t.chance(128), use_toml: t.chance(170), have_contracts: t.chance(150), selected: vec![], unknown: None, toml_path_missing: false };
     if c.path_style == 1 {
         c.have_contracts = true;
     }
@@ -233,6 +235,7 @@ fn binary_case(env: &Env, tape: &[u8], st: &mut Stats) -> Vec<Violation> {
             // a name of another category is unknown here
             c.unknown = Some((cat.to_string(), n.to_string()));
         }
+        c.toml_path_missing = t.chance(40);
     }
     run_bin_case(env, &c, st)
 }
@@ -259,7 +262,7 @@ fn run_bin_case(env: &Env, c: &BinCase, st: &mut Stats) -> Vec<Violation> {
     let fire = firing_in(&corpus("M"));
     let toml_file = w.join("cfg.toml");
     if c.use_toml {
-        std::fs::write(&toml_file, toml_text("./FromToml", &c.selected, &c.unknown)).unwrap();
+        std::fs::write(&toml_file, toml_text(if c.toml_path_missing { "./Missing" } else { "./FromToml" }, &c.selected, &c.unknown)).unwrap();
     }
     let mut args: Vec<&str> = Vec::new();
     if c.use_path {
@@ -287,7 +290,7 @@ fn run_bin_case(env: &Env, c: &BinCase, st: &mut Stats) -> Vec<Violation> {
     st.evaluations += 1;
     st.mark("path_toml_contracts_combinations", &format!("path={} toml={} contracts={}", c.use_path, c.use_toml, c.have_contracts));
     st.sample(4, || json!({"args": args, "toml": if c.use_toml { Some(toml_text("./FromToml", &c.selected, &c.unknown)) } else { None }, "have_contracts_dir": c.have_contracts}));
-    let case = json!({"path_style": c.path_style, "order_seed": c.order_seed, "use_path": c.use_path, "use_toml": c.use_toml, "have_contracts": c.have_contracts, "selected": c.selected, "unknown": c.unknown});
+    let case = json!({"path_style": c.path_style, "order_seed": c.order_seed, "use_path": c.use_path, "use_toml": c.use_toml, "have_contracts": c.have_contracts, "selected": c.selected, "unknown": c.unknown, "toml_path_missing": c.toml_path_missing});
     let mixed_case = c.selected.iter().any(|(_, n)| n.chars().any(|ch| ch.is_ascii_uppercase()));
     let cats: BTreeSet<&String> = c.selected.iter().map(|(c, _)| c).collect();
     if mixed_case || cats.len() >= 2 || (c.use_toml && c.have_contracts) || (c.use_path && c.use_toml) {
@@ -301,6 +304,19 @@ fn run_bin_case(env: &Env, c: &BinCase, st: &mut Stats) -> Vec<Violation> {
         }
         if out.report.is_some() {
             return vec![Violation::new("binary", "unknown-name:report-written", "a report was written although the configuration names an unknown pattern", case)];
+        }
+        return vec![];
+    }
+    // the configuration names a directory that does not exist and no --path overrides it: how the run
+    // ends is not stated, but it must not fall back to some other directory
+    if c.use_toml && !c.use_path && c.toml_path_missing {
+        st.count("runs_with_missing_configured_directory");
+        if out.code == Some(0) {
+            let report = String::from_utf8_lossy(&out.report.unwrap_or_default()).to_string();
+            let parsed = parse_report(&report);
+            if let Some(e) = parsed.entries.first() {
+                return vec![Violation::new("binary", "directory:configured-directory-missing-but-another-analysed", format!("the configuration names ./Missing (absent), yet the report lists findings, e.g. in {}", e.file), case)];
+            }
         }
         return vec![];
     }
@@ -375,6 +391,7 @@ pub fn replay(env: &Env, check: &str, case: &Value, st: &mut Stats) -> Vec<Viola
         have_contracts: case.get("have_contracts").and_then(|b| b.as_bool()).unwrap_or(true),
         selected: sel,
         unknown,
+        toml_path_missing: case.get("toml_path_missing").and_then(|b| b.as_bool()).unwrap_or(false),
     };
     run_bin_case(env, &c, st)
 }
